@@ -1,6 +1,10 @@
 // Package base32 implements utilities for encoding and decoding text using I2P's alphabet
 package base32
 
+import (
+	b32 "encoding/base32"
+)
+
 // EncodeToString encodes binary data to a base32 string using I2P's encoding alphabet.
 // It converts arbitrary byte data into a human-readable base32 string representation
 // using the I2P-specific lowercase alphabet defined in RFC 3548.
@@ -16,6 +20,9 @@ func EncodeToString(data []byte) string {
 // Returns an error if the input contains invalid base32 characters or padding.
 // Example: DecodeString("jbswy3dp") returns []byte{72, 101, 108, 108, 111}, nil
 func DecodeString(data string) ([]byte, error) {
+	if err := checkPaddingIsTrailing(data); err != nil {
+		return nil, err
+	}
 	// Parse I2P-specific base32 string with error handling
 	// Validates input characters against I2P alphabet before decoding
 	return I2PEncoding.DecodeString(data)
@@ -63,7 +70,7 @@ func DecodeStringSafe(data string) ([]byte, error) {
 	if len(data) > MAX_DECODE_SIZE {
 		return nil, ErrInputTooLarge
 	}
-	return I2PEncoding.DecodeString(data)
+	return DecodeString(data)
 }
 
 // DecodeStringSafeNoPadding decodes an unpadded base32 string with input validation.
@@ -77,4 +84,21 @@ func DecodeStringSafeNoPadding(data string) ([]byte, error) {
 		return nil, ErrInputTooLarge
 	}
 	return I2PEncodingNoPadding.DecodeString(data)
+}
+
+// checkPaddingIsTrailing rejects input in which anything other than padding (or the CR/LF
+// characters the decoder skips) follows a padding character. encoding/base32 stops at the
+// first padded quantum and silently ignores whatever comes after it.
+func checkPaddingIsTrailing(data string) error {
+	seenPadding := false
+	for i := 0; i < len(data); i++ {
+		switch c := data[i]; {
+		case c == '\r' || c == '\n':
+		case c == '=':
+			seenPadding = true
+		case seenPadding:
+			return b32.CorruptInputError(i)
+		}
+	}
+	return nil
 }
